@@ -38,6 +38,15 @@ pub fn pool() -> Vec<(&'static str, &'static str)> {
         ("same-struct-name", "contract Y# { struct Config { bool a ; uint256 b ; bool c ; } }"),
         ("interface-struct", "interface Z# { struct Params { uint128 a ; uint256 b ; uint128 c ; } function q# ( ) external ; }"),
         ("abstract", "abstract contract X# { uint256 internal x# ; function _h# ( ) public virtual ; modifier only# ( ) { _ ; } }"),
+        // items that refer by NAME to a type declared in another item (fixed names, so the reference resolves when both
+        // are in the file): the verdict on the referring item must not depend on whether the declaration is present
+        ("named-enum", "enum Kind { Spot , Forward }"),
+        ("named-value-type", "type Price is uint128 ;"),
+        ("struct-of-enum-tail", "struct Pe# { uint248 size ; Kind kind ; uint8 lev ; }"),
+        ("struct-of-enum-ends", "struct Re# { Kind s ; uint256 amount ; Kind h ; }"),
+        ("struct-of-value-type", "struct Tv# { Price bid ; uint256 mid ; Price ask ; }"),
+        ("contract-of-named-types", "contract Cn# { Kind a# ; uint256 b# ; Price c# ; S0 d# ; uint128 e# ; }"),
+        ("library-of-named-struct", "library Ln# { struct Kind { uint128 a ; uint256 b ; uint128 c ; } function _k# ( Price p ) internal { } }"),
     ]
 }
 
@@ -201,7 +210,7 @@ pub fn run(tier: Tier) -> i32 {
     run.set("evaluations", calls);
     run.set("distinct_nontrivial", outcomes.len() as u64);
     run.set("item_templates", n as u64);
-    run.set("rule", "states = files built from all sequences with repetition of 2 items (x pragma first / between / last) and of 3 items (quick: every 4th; thorough: all, pragma first and last) from a pool of 19 item templates instantiated with fresh identifier suffixes; transitions = detector calls on the whole file and on each item-wise blanked file (28 detectors); oracle = set equality of the whole-file lines with the union of the per-item lines; non-trivial = distinct (detector, whole-file result) outcomes");
+    run.set("rule", "states = files built from all sequences with repetition of 2 items (x pragma first / between / last) and of 3 items (quick: every 4th; thorough: all, pragma first and last) from a pool of 31 item templates instantiated with fresh identifier suffixes; transitions = detector calls on the whole file and on each item-wise blanked file (28 detectors); oracle = set equality of the whole-file lines with the union of the per-item lines; non-trivial = distinct (detector, whole-file result) outcomes");
     run.set("bound_completed", if tier == Tier::Quick { "all pairs x 3 pragma positions; every 4th triple" } else { "all pairs and all triples" });
     run.set("samples", json!(seqs.iter().step_by(seqs.len() / 3 + 1).take(3).map(|(s, p)| json!({"items": s.iter().map(|&i| pool[i].0).collect::<Vec<_>>(), "pragma_position": p})).collect::<Vec<_>>()));
     run.finish()
